@@ -74,8 +74,10 @@ LABELS = ['A', 'B', 'C', 'D', 'E', 'F', 'Top Left', 'z9']
 # Group and location names overlap on purpose (a group and a location may
 # share a name and have different members), and 'G1' is also used as the name
 # of a light that does not exist.
-GROUPS = ['G1', 'G2', 'X']
-LOCATIONS = ['L1', 'X', 'G1']
+# Names differ in case as well: groups and locations are visited in plain
+# string order ('X' before 'g2').
+GROUPS = ['G1', 'g2', 'X']
+LOCATIONS = ['L1', 'X', 'G1', 'den']
 
 
 @st.composite
